@@ -133,7 +133,7 @@ def pdiff(a, b, grid):
     for ax in range(grid.num_axes):
         if grid.periodic[ax]:
             L = grid.axes_bounds[ax][1] - grid.axes_bounds[ax][0]
-            d[ax] = (d[ax] + L / 2) % L - L / 2
+            d[..., ax] = (d[..., ax] + L / 2) % L - L / 2
     return d
 
 
